@@ -65,8 +65,8 @@ var fixedLenResults = map[string]int{
 	"net.IPv4":      16,
 }
 
-var reTemp = regexp.MustCompile(`@t\d+`)
-var rePhi = regexp.MustCompile(`φt\d+`)
+var reTemp = regexp.MustCompile(`@(?:[\w$]+·)?t\d+`)
+var rePhi = regexp.MustCompile(`φ(?:[\w$]+·)?t\d+`)
 
 func stableKey(s string) string {
 	s = reTemp.ReplaceAllString(s, "")
@@ -105,6 +105,7 @@ func runSafety(c *Ctx, prefix string, fns []*ssa.Function, pred map[*ssa.Functio
 		sp := &safetyPass{c: c, prefix: prefix, pred: pred, on: on, fn: fn, ordinal: map[string]int{}, mayNil: map[string]bool{}}
 		c.R.Functions[shortFn(fn)] = true
 		ex := NewExplorer(c.P, c.Pure, fn)
+		ex.Inline = nil // every function in scope is analysed on its own
 		sp.ex = ex
 		ex.Hooks.Instr = sp.instr
 		ex.Run()
